@@ -419,10 +419,12 @@ def run_check(prop_id, tier, workers=16, confirm=True, write_evidence=True):
             a = fresh_replay(prop_id, replays[k])
             bb = fresh_replay(prop_id, replays[k])
             ok = a[0] == 1 and bb[0] == 1 and a[1] == bb[1] and a[1] is not None
+            with_history = False
             if not ok and by_key[k].get('shard') is not None:
                 a = fresh_replay(prop_id, replays[k], history=True)
                 bb = fresh_replay(prop_id, replays[k], history=True)
                 ok = a[0] == 1 and bb[0] == 1 and a[1] == bb[1] and a[1] is not None
+                with_history = a[0] == 1 and bb[0] == 1
             if not ok and a[0] == 1 and bb[0] == 1 and a[1] and bb[1]:
                 # both fresh runs violate, but the messages differ: if both violate the SAME clause under the SAME witness key, the code
                 # under test itself is not deterministic on this case (e.g. it reads uninitialised memory) - that is a reproduced violation
@@ -431,11 +433,11 @@ def run_check(prop_id, tier, workers=16, confirm=True, write_evidence=True):
                 if ka == kb and any(key == k for _, key in ka):
                     ok = True
                     by_key[k]['detail'] = '[reproduced in two fresh interpreters with varying magnitude: the code under test is not deterministic here] ' + by_key[k]['detail']
-                    replays[k] = write_replay(prop_id, by_key[k], seed)
-                if ok:
-                    by_key[k]['needs_history'] = True
-                    by_key[k]['detail'] = '[shows only after earlier cases were executed in the same process: state kept between calls] ' + by_key[k]['detail']
-                    replays[k] = write_replay(prop_id, by_key[k], seed)
+            if ok and with_history:
+                by_key[k]['needs_history'] = True
+                by_key[k]['detail'] = '[shows only after earlier cases were executed in the same process: state kept between calls] ' + by_key[k]['detail']
+            if ok:
+                replays[k] = write_replay(prop_id, by_key[k], seed)
             if not ok:
                 print(f'HARNESS-ERROR nondeterminism: replay of {replays[k]} did not reproduce '
                       f'(rc {a[0]}/{bb[0]}, same_obs={a[1] == bb[1]}) {a[2][-300:]}')
